@@ -142,6 +142,18 @@ Theorem C02_K5_witness :
 Proof. exact k5_witness_fails. Qed.
 Print Assumptions C02_K5_witness.
 
+(* the unambiguity conditions are decidable; the boolean form is what the correspondence check
+   compares with the harness's restatement of the known class K5 (K5 = not unamb_top_b) *)
+Theorem C02_unamb_b_sound : forall (F : lfmt) (v : lnarsese), unamb_top_b F v = true -> unamb_top F v.
+Proof. exact unamb_top_b_sound. Qed.
+Print Assumptions C02_unamb_b_sound.
+
+Theorem C02_han_b : forall v : lnarsese,
+  vocab_ok LEX_HAN std_alnum v = true -> unamb_top_b LEX_HAN v = true -> bare_atom v = false ->
+  lex_parse std_alnum LEX_HAN (lex_fmt LEX_HAN v) = LOk v.
+Proof. exact han_roundtrip_b. Qed.
+Print Assumptions C02_han_b.
+
 (* ---- the hypotheses are satisfiable ---- *)
 Example ex_C02_sample_task :
   vocab_ok LEX_ASCII std_alnum sample_task_ascii = true /\
